@@ -169,6 +169,9 @@ def run_model(sxs):
 def sample_stage(rep, impl, stats):
     repo_samples = os.path.join(REPO, "sample")
     errs = sorted(glob.glob(os.path.join(repo_samples, "*.nev.err")))
+    # negative programs for constructs outside the modelled core (pipe operator …): expected (line, severity)
+    # written by hand from the rule, compared with the real compiler only
+    errs += sorted(glob.glob(os.path.join(os.path.dirname(os.path.dirname(os.path.abspath(__file__))), "corpus", "tc_neg", "*.nev.err")))
     srcs, exps, names = [], [], []
     for e in errs:
         s = e[:-4]
@@ -181,7 +184,7 @@ def sample_stage(rep, impl, stats):
             if m:
                 exp.append((int(m.group(2)), m.group(3), m.group(4).rstrip()))
         exps.append(exp)
-        names.append(os.path.basename(s))
+        names.append(("neg:" if "tc_neg" in e else "") + os.path.basename(s))
     res = impl.run(srcs)
     bad = 0
     real_violation = rep.violation
@@ -200,6 +203,8 @@ def sample_stage(rep, impl, stats):
         elif want_fail and r["rc"] == 0:
             bad += 1
             capped("sample_" + n, "# negative sample %s is ACCEPTED (rc 0); expected diagnostics:\n# %s\n%s" % (n, exp, src), True)
+        elif n.startswith("neg:") and got and [(l, k) for l, k, _ in got][0] == [(l, k) for l, k, _ in exp][0]:
+            pass      # hand-written negative: rejected, first diagnostic at the offending line
         elif [(l, k) for l, k, _ in got] != [(l, k) for l, k, _ in exp] or (not want_fail and r["rc"] != 0):
             # lines and severities must be those of the .err file (the wording may change)
             bad += 1
